@@ -219,7 +219,7 @@ fn bias(r: &mut Rng, h: &mut History) {
             0 => s.1 = "just a paragraph now\n".into(), // heading removed
             1 => s.1 = format!("# t {}\n\n| a |\n|---|\n| b |\n\n[x]({})\n\ninline [y]({}) link\n", s.0.len(), r.pick(&keys[..]), r.pick(&keys[..])), // content after a table
             2 => s.1 = "# only a heading\n".into(), // all references removed
-            3 => s.1 = format!("[ref]({})\n", crate::oracle::md::rel_url(r.pick(&keys[..]).as_str(), &Key::from_file_name(&s.0).parent())),
+            3 => s.1 = format!("[ref]({})\n", crate::oracle::md::rel_url(r.pick(&keys[..]).as_str(), &crate::oracle::md::dir_of(&s.0))),
             _ => {}
         }
     }
